@@ -380,7 +380,8 @@ theorem exp2_int_value_gen (x : TwoFloat) (k : Int) (hp : IsP x (k * (F64.unit :
   generalize sq9 p0 = r1 at hs ⊢
   -- the final scaling
   by_cases hk0 : k = 0
-  · have : (x.hi ==. f64lit 0x0000000000000000) = true := by rw [hk0]; decide +kernel
+  · have : (x.hi ==. f64lit 0x0000000000000000) = true := by
+      rw [req_eq, f64lit_zero, eq_iff_toInt hKf rfl, hKi, hk0, toInt_zero]; ring
     rw [this, if_pos rfl, hk0]
     have e : ((2 ^ ((0 : Int) + 1074).toNat : Nat) : Int) = (F64.unit : Int) := by
       rw [F64.unit_eq]; rfl
